@@ -124,6 +124,10 @@ func (e *Engine) Init() (*State, error) {
 
 // Exec runs one action on a restored copy of pre and returns the successor.
 func Exec(rig *Rig, sc *Scenario, pre *State, a Action) (*State, *StepResult) {
+	if a.Kind == "restart" {
+		post, res := restartChain(rig, pre)
+		return post, &res
+	}
 	w := rig.Restore(pre)
 	var res StepResult
 	post := &State{Height: pre.Height, Time: pre.Time, Used: pre.Used, Msgs: pre.Msgs, Mon: pre.Mon}
@@ -155,6 +159,7 @@ type expandResult struct {
 	viols  []Violation // step violations (edge)
 	inv    []Violation // invariant violations (target state)
 	self   bool
+	halt   bool // the end-of-block routine panicked: the chain has halted, this state has no future
 }
 
 func (e *Engine) Run() error {
@@ -269,12 +274,12 @@ func (e *Engine) expandLevel(frontier []int32, depth int) ([]int32, bool) {
 				e.index[r.hash] = id
 				e.States++
 				newInLevel[id] = true
-				if invViol {
+				if invViol || r.halt {
 					e.nodes[id].expand = false
 					newInLevel[id] = false
 				}
 			}
-			if newInLevel[id] && !stepViol && !invViol {
+			if newInLevel[id] && !stepViol && !invViol && !r.halt {
 				if !e.nodes[id].expand {
 					e.nodes[id].expand = true
 				}
@@ -354,11 +359,23 @@ func (e *Engine) expandNode(x *OCtx, id int32) []expandResult {
 		t := &Trans{Pre: preV, Act: a, Res: res, Post: postV, PreMon: preMon, PostMon: postMon}
 		h := post.Hash()
 		self := h == pre.Hash()
+		// a panic at end of block halts the chain: the half-written successor is no state of the system; only the
+		// property that forbids the panic (C20) judges the step, and the successor is not expanded
+		halt := a.Kind == "E" && res.Panic != ""
 		for _, o := range e.Oracles {
+			if halt && o.Prop() != "C20" {
+				continue
+			}
+			if a.Kind == "restart" && res.OK() && o.Prop() != "C20" {
+				continue // the restart itself is judged by C19 (every state is an export point there); the others judge what follows
+			}
 			viols = append(viols, o.Step(x, t)...)
 		}
+		if halt {
+			x.Wit("engine:chain-halt-not-expanded")
+		}
 		var inv []Violation
-		if !self {
+		if !self && !halt {
 			// invariants on the successor; (re-evaluated if the state is reached again, which is harmless)
 			for _, o := range e.Oracles {
 				for _, vi := range o.Invariant(x, postV, postMon) {
@@ -367,7 +384,7 @@ func (e *Engine) expandNode(x *OCtx, id int32) []expandResult {
 				}
 			}
 		}
-		out = append(out, expandResult{parent: id, act: a.Name, post: post, hash: h, viols: viols, inv: inv, self: self})
+		out = append(out, expandResult{parent: id, act: a.Name, post: post, hash: h, viols: viols, inv: inv, self: self, halt: halt})
 	}
 	return out
 }
